@@ -17,11 +17,13 @@ impl<'a> Rd<'a> {
     }
 }
 pub const NL: usize = 48;
-pub struct Leaves { pub n: usize, pub v: [u64; NL], pub skipped: bool }
+/// k: kind of an integer leaf (bytes * 2 + signed), 0 for everything else
+pub struct Leaves { pub n: usize, pub v: [u64; NL], pub k: [u8; NL], pub skipped: bool }
 impl Leaves {
-    pub fn new() -> Self { Leaves { n: 0, v: [0; NL], skipped: false } }
+    pub fn new() -> Self { Leaves { n: 0, v: [0; NL], k: [0; NL], skipped: false } }
     pub fn push(&mut self, x: u64) { if self.n < NL { self.v[self.n] = x; } self.n += 1; }
-    pub fn same(&self, o: &Leaves) { assert!(self.n == o.n); assert!(self.n <= NL); let mut i = 0; while i < NL { if i < self.n { assert!(self.v[i] == o.v[i]); } i += 1; } }
+    pub fn push_int(&mut self, x: u64, kind: u8) { if self.n < NL { self.v[self.n] = x; self.k[self.n] = kind; } self.n += 1; }
+    pub fn same(&self, o: &Leaves) { assert!(self.n == o.n); assert!(self.n <= NL); let mut i = 0; while i < NL { if i < self.n { assert!(self.v[i] == o.v[i]); assert!(self.k[i] == o.k[i]); } i += 1; } }
 }
 
 /// value source for the native replay of generated harnesses: boundary-heavy pseudo-random integers
